@@ -121,6 +121,10 @@ fn scenarios(thorough: bool) -> Vec<Sc> {
                 v.push(base(kind, Variant::Plain, site, P::Awaits, closer, if site == Site::Handle { 2 } else { 1 }, pg));
             }
         }
+        // a graceful stop whose reason text is "killed" (what a supervisor forwards when it stops itself because a
+        // child was killed): post_stop still runs with the final state
+        v.push(base(kind, Variant::Plain, Site::Handle, P::Awaits, Closer::Stop(Some("killed")), 2, false));
+        v.push(base(kind, Variant::Plain, Site::PostStop, P::Awaits, Closer::Stop(Some("killed")), 1, false));
         // a stopper, a drainer and a killer race: whichever lands first, nothing starts after kill() returned
         v.push(base(kind, Variant::Plain, Site::Handle, P::Awaits, Closer::StopDrainKill, 2, false));
         v.push(base(kind, Variant::Plain, Site::PostStop, P::Awaits, Closer::StopDrainKill, 1, false));
